@@ -6047,6 +6047,21 @@ static PyObject *new_function_type(PyObject *fargs,   /* tuple */
         return NULL;
     }
 
+    /* 'void' is not a parameter type.  For most signatures this is
+       reported by fb_prepare_cif() below, but not for variadic functions
+       nor when the result type is not supported by libffi (complex):
+       the resulting ctype was named '...(void)', which typeof() reads
+       back as a different type (the one without parameters). */
+    for (i = 0; i < PyTuple_GET_SIZE(fargs); i++) {
+        CTypeDescrObject *farg;
+        farg = (CTypeDescrObject *)PyTuple_GET_ITEM(fargs, i);
+        if (CTypeDescr_Check(farg) && (farg->ct_flags & CT_VOID)) {
+            PyErr_Format(PyExc_TypeError, "ctype '%s' has incomplete type",
+                         farg->ct_name);
+            return NULL;
+        }
+    }
+
     fct = fb_prepare_ctype(&funcbuilder, fargs, fresult, ellipsis, fabi);
     if (fct == NULL)
         return NULL;
